@@ -147,7 +147,7 @@ EmitSpine ==
     LET k == (H(e) * 13 + salt * 977 + d) % M
         ex == Deco(e, k)
         s == DecoQ(Pick(CtxList(ex), k), Mix(k, 101, 1))
-    IN IF WFQ(s) THEN EmitStyles("spine", s) /\ (k % 4 = 0 => EmitWithout(s)) ELSE TRUE
+    IN IF WFQ(s) /\ (d < 2 \/ k % EmitMod = 0) THEN EmitStyles("spine", s) /\ (k % 4 = 0 => EmitWithout(s)) ELSE TRUE
 THash(ts) == LET F[i \in 0..Len(ts)] == IF i = 0 THEN 7 ELSE (F[i - 1] * 31 + Len(ts[i].d) * 7 + Len(ts[i].s)) % M IN F[Len(ts)]
 EmitStmt ==
     LET k == (salt * 977 + THash(PrintTokens(q, "full"))) % M
